@@ -358,6 +358,22 @@ pub fn args_for(rng: &mut Rng, kind: usize, t: Tup, other: Tup) -> Vec<i64> {
     }
     "LD.next" | "LD.step" => vec![t.y, t.m, t.d, small_n(rng)],
     "LD.hour" => vec![t.y, t.m, t.d, rng.range(0, 12)],
+    "LD.cmp" => vec![t.y, t.m, t.d, other.y, other.m, other.d],
+    "LH.cmp" => vec![t.y, t.m, t.d, t.h, t.mi, t.s, other.y, other.m, other.d, other.h, other.mi, other.s],
+    "SCD.cmp" => vec![t.y, am, t.d.min(28).max(1), other.y, other.m.abs().max(1), other.d.min(28).max(1)],
+    "SCH.cmp" => vec![t.y, am, t.d.min(28).max(1), t.h, t.mi, t.s, other.y, other.m.abs().max(1), other.d.min(28).max(1), other.h, other.mi, other.s],
+    "LW.cmp" => vec![t.y, t.m, rng.range(0, 4), rng.range(0, 6), other.y, other.m, rng.range(0, 4), rng.range(0, 6)],
+    "TERM.cmp" => vec![t.y, rng.range(0, 23), other.y, rng.range(0, 23)],
+    "SCD.new" => vec![t.y, am, t.d.min(28).max(1)],
+    "SCH.new" => vec![t.y, am, t.d.min(28).max(1), t.h, t.mi, t.s],
+    "LW.new" => vec![t.y, t.m, rng.range(0, 5), rng.range(0, 6)],
+    "TERM.new" => vec![t.y, rng.range(-3, 27)],
+    "SCD.get" => vec![t.y, am, t.d.min(28).max(1), rng.below(crate::handles::HGETTERS[2] as u64) as i64],
+    "SCH.get" => vec![t.y, am, t.d.min(28).max(1), t.h, t.mi, t.s, rng.below(crate::handles::HGETTERS[3] as u64) as i64],
+    "LW.get" => vec![t.y, t.m, rng.range(0, 4), rng.range(0, 6), rng.below(crate::handles::HGETTERS[4] as u64) as i64],
+    "TERM.get" => vec![t.y, rng.range(0, 23), rng.below(crate::handles::HGETTERS[5] as u64) as i64],
+    "LW.step" => vec![t.y, t.m, rng.range(0, 4), rng.range(0, 6), rng.range(-6, 6)],
+    "SCD.hour" => vec![t.y, am, t.d.min(28).max(1), rng.range(0, 11)],
     "LH.new" => vec![t.y, t.m, t.d, t.h, t.mi, t.s],
     "LH.get" => vec![t.y, t.m, t.d, t.h, t.mi, t.s, rng.below(LH_GETTERS as u64) as i64],
     "LH.next" | "LH.step" => vec![t.y, t.m, t.d, t.h, t.mi, t.s, rng.range(-30, 30)],
@@ -578,8 +594,10 @@ pub fn gen_run(rng: &mut Rng, sw: &Swarm, pool: &[Query], leap: &Leap, reset: bo
   // interleave generation across threads so that `recent` is shared in a mixed order
   let total = sw.threads * sw.ops_per_thread;
   let mut slots_used: Vec<[bool; SLOTS]> = vec![[false; SLOTS]; sw.threads];
-  // what the generator believes each slot holds: true = LunarHour, false = LunarDay
-  let mut slot_hour: Vec<[bool; SLOTS]> = vec![[false; SLOTS]; sw.threads];
+  // what the generator believes each slot holds (index into handles::HKINDS)
+  let mut slot_kind: Vec<[usize; SLOTS]> = vec![[0; SLOTS]; sw.threads];
+  let zero = Tup { y: 0, m: 1, d: 1, h: 0, mi: 0, s: 0 };
+  let mut slot_tup: Vec<[Tup; SLOTS]> = vec![[zero; SLOTS]; sw.threads];
   let mut emitted = 0usize;
   let mut guard = 0usize;
   while emitted < total && guard < total * 8 {
@@ -588,41 +606,135 @@ pub fn gen_run(rng: &mut Rng, sw: &Swarm, pool: &[Query], leap: &Leap, reset: bo
     if threads[t].len() >= sw.ops_per_thread {
       continue;
     }
-    // handle ops
-    if (sw.fam[FAM_LD] || sw.fam[FAM_LH]) && rng.below(100) < sw.handle_pct {
+    // handle ops: values kept in slots, queried, stepped, cloned, derived from one another
+    let hkinds: Vec<usize> = [(0usize, FAM_LD), (1, FAM_LH), (2, FAM_SC), (3, FAM_SC), (4, FAM_LW), (5, FAM_SD)].iter().filter(|(_, f)| sw.fam[*f]).map(|(k, _)| *k).collect();
+    if !hkinds.is_empty() && rng.below(100) < sw.handle_pct {
       let used = slots_used[t];
       let filled: Vec<usize> = (0..SLOTS).filter(|s| used[*s]).collect();
+      // pattern: a value and its leap twin (same year, month and -month), some getters on both
+      // (filling whatever they memoise), then compared both ways
+      if (sw.fam[FAM_LD] || sw.fam[FAM_LH]) && rng.chance(1, 8) && threads[t].len() + 6 <= sw.ops_per_thread {
+        let f = *rng.pick(&recent_tuples);
+        let mut y = f.y.max(1).min(9990);
+        let mut l = 0;
+        for k in 0..5 {
+          if leap.of(y + k) > 0 {
+            y += k;
+            l = leap.of(y);
+            break;
+          }
+        }
+        if l > 0 {
+          let kind = if sw.fam[FAM_LH] && (!sw.fam[FAM_LD] || rng.chance(1, 3)) { 1 } else { 0 };
+          let (sa, sb) = (rng.below(SLOTS as u64) as usize, rng.below(SLOTS as u64) as usize);
+          if sa != sb {
+            let d1 = rng.range(1, 29);
+            let d2 = if rng.chance(1, 2) { d1 } else { rng.range(1, 29) };
+            let mk = |m: i64, d: i64| -> Vec<i64> {
+              if kind == 1 {
+                vec![y, m, d, f.h, f.mi, f.s]
+              } else {
+                vec![y, m, d]
+              }
+            };
+            let ng = crate::handles::HGETTERS[kind] as u64;
+            let seq = vec![
+              Op::HNew { slot: sa, kind, args: mk(-l, d1) },
+              Op::HNew { slot: sb, kind, args: mk(l, d2) },
+              Op::HGet { slot: sa, g: rng.below(ng) as i64 },
+              Op::HGet { slot: sb, g: rng.below(ng) as i64 },
+              Op::HCmp { a: sa, b: sb },
+              Op::HCmp { a: sb, b: sa },
+            ];
+            for (s_, k_) in [(sa, kind), (sb, kind)] {
+              slots_used[t][s_] = true;
+              slot_kind[t][s_] = k_;
+            }
+            slot_tup[t][sa] = Tup { y, m: -l, d: d1, ..f };
+            slot_tup[t][sb] = Tup { y, m: l, d: d2, ..f };
+            for op in seq {
+              threads[t].push(op);
+              gs.handle_ops += 1;
+              emitted += 1;
+            }
+            continue;
+          }
+        }
+      }
       let op = if filled.is_empty() || rng.chance(1, 4) {
-        let base = *rng.pick(&recent_tuples);
-        let hour = sw.fam[FAM_LH] && (!sw.fam[FAM_LD] || rng.chance(1, 2));
+        let mut base = *rng.pick(&recent_tuples);
+        if !filled.is_empty() && rng.chance(1, 3) {
+          // a neighbour of a value this thread already holds: its leap twin, or another twin
+          let other = slot_tup[t][*rng.pick(&filled)];
+          base = if rng.chance(1, 2) { Tup { m: -other.m, ..other } } else { twin(rng, other, leap, sw.allow_invalid) };
+        }
+        // lunar days and hours carry the library's own memos: keep them the most frequent
+        let kind = if (sw.fam[FAM_LD] || sw.fam[FAM_LH]) && rng.chance(2, 3) { *rng.pick(&hkinds.iter().cloned().filter(|k| *k < 2).collect::<Vec<usize>>()) } else { *rng.pick(&hkinds) };
         let slot = rng.below(SLOTS as u64) as usize;
         slots_used[t][slot] = true;
-        slot_hour[t][slot] = hour;
-        let args = if hour { vec![base.y, base.m, base.d, base.h, base.mi, base.s] } else { vec![base.y, base.m, base.d] };
-        Op::HNew { slot, hour, args }
+        slot_kind[t][slot] = kind;
+        slot_tup[t][slot] = base;
+        let am = base.m.abs().max(1);
+        let sd = base.d.min(28).max(1);
+        let args = match kind {
+          0 => vec![base.y, base.m, base.d],
+          1 => vec![base.y, base.m, base.d, base.h, base.mi, base.s],
+          2 => vec![base.y, am, sd],
+          3 => vec![base.y, am, sd, base.h, base.mi, base.s],
+          4 => vec![base.y, base.m, rng.range(0, 4), rng.range(0, 6)],
+          _ => vec![base.y, rng.range(-2, 26)],
+        };
+        Op::HNew { slot, kind, args }
       } else {
         let slot = *rng.pick(&filled);
+        let kind = slot_kind[t][slot];
         match rng.below(10) {
           0 | 1 => Op::HNext { slot, n: *rng.pick(&[1i64, 1, -1, 2, 0, 0, 7, -7, 29, 30, -30, 1, 12]) },
           2 => {
             let to = rng.below(SLOTS as u64) as usize;
             slots_used[t][to] = true;
-            slot_hour[t][to] = slot_hour[t][slot];
+            slot_kind[t][to] = kind;
             Op::HClone { from: slot, to }
           }
           3 => {
-            // derive a value from another one: the day of an hour, or one of the hours of a day
+            // derive a value from another one
             let to = rng.below(SLOTS as u64) as usize;
             slots_used[t][to] = true;
-            if slot_hour[t][slot] {
-              slot_hour[t][to] = false;
-              Op::HDay { from: slot, to }
-            } else {
-              slot_hour[t][to] = true;
-              Op::HHour { from: slot, to, k: *rng.pick(&[0usize, 12, 12, 1, 6, 11]) }
+            match kind {
+              1 => {
+                let variant = rng.below(2) as usize;
+                slot_kind[t][to] = if variant == 0 { 0 } else { 3 };
+                Op::HDay { from: slot, to, variant }
+              }
+              4 => {
+                slot_kind[t][to] = 0;
+                Op::HDay { from: slot, to, variant: 0 }
+              }
+              0 => {
+                if rng.chance(1, 2) {
+                  slot_kind[t][to] = 2;
+                  Op::HDay { from: slot, to, variant: 1 }
+                } else {
+                  slot_kind[t][to] = 1;
+                  Op::HHour { from: slot, to, k: *rng.pick(&[0usize, 12, 12, 1, 6, 11]) }
+                }
+              }
+              2 => {
+                slot_kind[t][to] = 3;
+                Op::HHour { from: slot, to, k: *rng.pick(&[0usize, 11, 11, 1, 6]) }
+              }
+              _ => {
+                slot_kind[t][to] = kind;
+                Op::HClone { from: slot, to }
+              }
             }
           }
-          _ => Op::HGet { slot, g: rng.below(LD_GETTERS.max(LH_GETTERS) as u64) as i64 },
+          4 => {
+            // compare with another slot of the same kind, if there is one (else with itself)
+            let same: Vec<usize> = filled.iter().cloned().filter(|s2| slot_kind[t][*s2] == kind).collect();
+            Op::HCmp { a: slot, b: *rng.pick(&same) }
+          }
+          _ => Op::HGet { slot, g: rng.below(crate::handles::HGETTERS[kind] as u64) as i64 },
         }
       };
       threads[t].push(op);
